@@ -21,6 +21,7 @@ Sites     == {MainSite} \cup CopySites \cup TcSites
 VARIABLES
     I,          \* requested poll interval
     since,      \* site -> iterations begun since the last poll at that site
+    polled,     \* site -> the current instance of the loop has polled already
     cur,        \* site of the iteration in progress ("none" before the first)
     polls,      \* polls so far
     stopSeen,   \* a poll has answered stop
@@ -30,13 +31,14 @@ VARIABLES
     ended,      \* the analysis has returned
     wchk        \* verdicts on the step just taken
 
-wvars == <<I, since, cur, polls, stopSeen, stopSite, afterPolls, afterMain, ended, wchk>>
+wvars == <<I, since, polled, cur, polls, stopSeen, stopSite, afterPolls, afterMain, ended, wchk>>
 
 WGood == [rate |-> TRUE, latency |-> TRUE, stop |-> TRUE, same |-> TRUE, hooked |-> TRUE]
 
 Begin(i) ==
     /\ I' = i
     /\ since' = [s \in Sites |-> 0]
+    /\ polled' = [s \in Sites |-> FALSE]
     /\ cur' = "none" /\ polls' = 0 /\ stopSeen' = FALSE /\ stopSite' = "none"
     /\ afterPolls' = 0 /\ afterMain' = 0 /\ ended' = FALSE
     /\ wchk' = WGood
@@ -46,6 +48,7 @@ Iter(site) ==
     \* a new main-loop iteration means every copy loop of the previous instruction is over
     /\ since' = [s \in Sites |-> IF s = site THEN since[s] + 1
                                   ELSE IF site = MainSite /\ s \in CopySites THEN 0 ELSE since[s]]
+    /\ polled' = [s \in Sites |-> IF site = MainSite /\ s \in CopySites THEN FALSE ELSE polled[s]]
     /\ cur' = site
     /\ afterMain' = IF stopSeen /\ site = MainSite THEN afterMain + 1 ELSE afterMain
     /\ wchk' = [WGood EXCEPT
@@ -64,12 +67,17 @@ Iter(site) ==
 Poll(stop) ==
     /\ polls' = polls + 1
     /\ since' = IF cur \in Sites THEN [since EXCEPT ![cur] = 0] ELSE since
+    /\ polled' = IF cur \in Sites THEN [polled EXCEPT ![cur] = TRUE] ELSE polled
     /\ stopSeen' = (stopSeen \/ stop)
     /\ stopSite' = IF ~stopSeen /\ stop THEN cur ELSE stopSite
     /\ afterPolls' = IF stopSeen THEN afterPolls + 1 ELSE afterPolls
     /\ wchk' = [WGood EXCEPT
                   \* every poll happens inside an iteration of a known polled loop
                   !.hooked  = cur \in Sites,
+                  \* C13 rate, the other half: ONCE per I iterations - the first iteration of a loop
+                  \* polls, and after that exactly every I-th, so that polls track the work done
+                  !.rate    = cur \in Sites =>
+                                 IF polled[cur] THEN since[cur] = I ELSE since[cur] = 1,
                   \* at most I + 1 further polls: one per copy instruction met during the at most I
                   \* main-loop iterations left, plus the main loop's own
                   !.latency = stopSeen => afterPolls + 1 <= I + 1,
@@ -83,7 +91,7 @@ End(res, same) ==
                   !.stop = stopSeen => res = "stopped",
                   \* C13: a watchdog that never says stop does not change the result
                   !.same = ~stopSeen => (same /\ res # "stopped")]
-    /\ UNCHANGED <<I, since, cur, polls, stopSeen, stopSite, afterPolls, afterMain>>
+    /\ UNCHANGED <<I, since, polled, cur, polls, stopSeen, stopSite, afterPolls, afterMain>>
 
 Inv_C13_Rate    == wchk.rate /\ wchk.hooked
 Inv_C13_Latency == wchk.latency
